@@ -193,7 +193,7 @@ def run(facts, R):
             pushes.append((render_n(ch, uo), g))
     table = set()
     for ch, g in pushes:
-        after_tilde = any("Ne 126) is False" in x for x in g)
+        after_tilde = any("Ne 126) is False" in x or "Eq 126) is True" in x or ("next#1(" in x and x.endswith("is ('in', [126])")) for x in g)
         if not after_tilde:
             table.add(("plain", ch[-30:]))
             continue
